@@ -3,7 +3,7 @@
 # builds, runs the pinned suite (expects 617 pass / 5 fail), runs the demo with and without the patch.
 # usage: seedverify.sh <seeddir> <outdir-name> [stress|nan]
 set -u
-SEED=$1; NAME=$2; MODE=${3:-default}
+SEED=$1; NAME=$2; MODE=${3:-default}; INPUT=${4:-file}   # INPUT=stdin feeds demo.lay to the REPL
 WT=/tmp/sv/$NAME
 mkdir -p /tmp/sv
 git -C /repo worktree remove --force $WT 2>/dev/null
@@ -14,7 +14,8 @@ FEAT=""; [ "$MODE" = stress ] && FEAT="--features laythe_vm/gc_stress"; [ "$MODE
 BIN=/tmp/sv/target/debug/laythe
 run_demo() { # label
   : > /tmp/sv/$NAME.$1.out
-  if [ -f $SEED/demo.lay ]; then ( cd $SEED && ulimit -v 400000 && timeout 120 $BIN demo.lay >> /tmp/sv/$NAME.$1.out 2>&1; echo "exit=$?" >> /tmp/sv/$NAME.$1.out ); fi
+  if [ -f $SEED/demo.lay ] && [ "$INPUT" = stdin ]; then ( cd $SEED && ulimit -v 400000 && timeout 120 $BIN < demo.lay 2>&1 | sed -e 's/thread .main. ([0-9]*)/thread main/' >> /tmp/sv/$NAME.$1.out; echo "exit=${PIPESTATUS[0]}" >> /tmp/sv/$NAME.$1.out );
+  elif [ -f $SEED/demo.lay ]; then ( cd $SEED && ulimit -v 400000 && timeout 120 $BIN demo.lay >> /tmp/sv/$NAME.$1.out 2>&1; echo "exit=$?" >> /tmp/sv/$NAME.$1.out ); fi
   if [ -f $SEED/seed_demo.rs ]; then
     mkdir -p $WT/laythe_core/tests && cp $SEED/seed_demo.rs $WT/laythe_core/tests/seed_demo.rs
     ( cd $WT && cargo test --offline -p laythe_core --test seed_demo 2>&1 | grep -E "^test |test result|panicked" | sed 's/finished in .*//' >> /tmp/sv/$NAME.$1.out )
